@@ -47,6 +47,15 @@ def main():
     pid = a.pid.upper()
     seed = int(os.environ.get("VERIF_SEED", "0") or 0)
     ctx = common.Ctx(pid, a.tier, seed, a.replay)
+
+    class Watchdog(Exception):
+        pass
+
+    def on_alarm(signum, frame):
+        raise Watchdog("check exceeded its time limit")
+    import signal
+    signal.signal(signal.SIGALRM, on_alarm)
+    signal.alarm(1500 if a.tier == "quick" else 5400)
     try:
         mod = importlib.import_module(pid.lower())
         if a.replay:
